@@ -300,16 +300,32 @@ def oracle_stream(pid, sc, ob):
         elif kind == "P":
             if pid == "C10" and (st["writer_gone"] or st["aborted"]):
                 return "Pending although the writer is gone / aborted"
-            st["parked"], st["woken"] = ("b" if c == "Q" else "a"), False
+            st["parked"], st["woken"] = ("b" if c == "Q" else ("c" if c == "k" else "a")), False
         return None
 
+    # op `K<producer op>` (a producer step on another thread that starts while the consumer's poll is cloning its waker C): judged as
+    # the poll (waker C) followed by the producer step, the only order consistent with a poll that saw an empty queue
+    ops2, res2 = [], []
+    for op, r00 in zip(ops, res):
+        if op[0] == "K" and "^" in r00:
+            r0, *inline = r00.split("~")
+            r, _, wk = r0.partition("!")
+            pr, prod, wc = r.split("^")
+            ops2 += ["k", op[1:]]
+            res2 += [pr, "~".join([prod + "!" + (wk or "0/0") + "/" + wc] + inline)]
+        else:
+            ops2.append(op)
+            res2.append(r00)
+    ops, res = ops2, res2
     for op, r00 in zip(ops, res):
         r0, *inline = r00.split("~")
         r, _, wk = r0.partition("!")
-        wa, wb = (int(x) for x in wk.split("/")) if wk else (0, 0)
+        wa, wb, wc = ([int(x) for x in wk.split("/")] + [0])[:3] if wk else (0, 0, 0)
         if st["parked"] == "a" and wa:
             st["woken"] = True
         if st["parked"] == "b" and wb:
+            st["woken"] = True
+        if st["parked"] == "c" and wc:
             st["woken"] = True
         c, arg = op[0], op[1:]
         if c in "WL":
@@ -352,7 +368,7 @@ def oracle_stream(pid, sc, ob):
                     st["fill"] = 0
         elif c == "R":
             st["reader_gone"] = True
-        elif c in "PQ" and r != "p-":
+        elif c in "PQk" and r != "p-":
             why = on_poll(c, r)
             if why:
                 return why
@@ -827,6 +843,19 @@ def fam_stream_queued():
     return out
 
 
+def fam_stream_clonehook():
+    """A producer step (flush / write completing a chunk / drop / abort) on another thread starts while the consumer's poll is
+    cloning its waker (op K): the consumer must end up woken, or must have seen the step's effect in that very poll."""
+    out, k = [], 0
+    for cs in (2, 4):
+        for pre in ([], ["W61"], ["W61", "F", "P"], ["P"], ["Q"], ["W61", "P", "Q"]):
+            for step in ("F", "X", "A", "L" + "62" * cs, "L62"):
+                for tail in (["P", "P"], ["F", "P", "P"], ["X", "P", "P"]):
+                    k += 1
+                    out.append({"id": "ck%d" % k, "chunk": cs, "ops": pre + ["K" + step] + tail})
+    return out
+
+
 def fam_stream_disconnect():
     out = []
     k = 0
@@ -840,7 +869,7 @@ def fam_stream_disconnect():
 
 FAMILIES[("chunker", "Reader::drop")] = ("stream_witness", fam_stream_disconnect)
 def _fam_chunker():
-    fam = fam_stream_inline() + fam_stream_long_writes() + fam_stream_queued() + fam_stream_ops(5, (2, 3)) + fam_stream_ops(4, (1,))
+    fam = fam_stream_inline() + fam_stream_clonehook() + fam_stream_long_writes() + fam_stream_queued() + fam_stream_ops(5, (2, 3)) + fam_stream_ops(4, (1,))
     if os.environ.get("VERIF_TIER") == "thorough":
         fam += [sc for sc in fam_stream_ops(6, (2,)) if len(sc["ops"]) == 10]      # every history of exactly 6 operations (10^6) at chunk size 2
     return fam
